@@ -13,38 +13,64 @@ import (
 	"sigs.k8s.io/controller-runtime/pkg/handler"
 	"sigs.k8s.io/controller-runtime/pkg/predicate"
 	"sigs.k8s.io/controller-runtime/pkg/source"
+
+	"package-operator.run/internal/dynamiccache"
 )
 
 const CacheLabel = "package-operator.run/cache"
 
-// CacheNotStarted mirrors dynamiccache.CacheNotStartedError.
-type CacheNotStarted struct{}
-
-func (CacheNotStarted) Error() string {
-	return "cache access before calling Watch, can not read objects"
-}
+// CacheNotStarted IS dynamiccache.CacheNotStartedError: reads of a GVK nobody watches in this
+// process fail with the very error value the real cache returns.
+type CacheNotStarted = dynamiccache.CacheNotStartedError
 
 // Cache is the stand-in for dynamiccache.Cache: a FRESH view of the store restricted to watched
-// kinds and to objects carrying the cache label (DESIGN.md §4).  Restart() drops all watches.
+// kinds and to objects carrying the cache label (DESIGN.md §4).
+//
+// Like the real cache it keeps, IN THE MEMORY OF THE OPERATOR PROCESS, who watches what
+// (dynamiccache.Cache.informerReferences: GroupVersionKind -> set of OwnerReference):
+//   - Watch(owner, obj) creates the entry of obj's GVK if there is none and adds the owner;
+//   - Free(owner) removes the owner everywhere and drops every GVK left without owner;
+//   - Get / List of a GVK WITHOUT entry fail with CacheNotStartedError - the condition of the real
+//     cache (`if _, ok := c.informerReferences[gvk]; !ok`), per version: watching v1 of a kind does
+//     not make v2 readable;
+//   - Restart() is a new process: nothing is registered.
 type Cache struct {
 	s       *Store
-	watches map[schema.GroupKind]map[string]bool // kind -> owner ids
+	watches map[schema.GroupVersionKind]map[OwnerRef]bool
 	// WatchLog records Watch calls ("owner kind").
 	WatchLog []string
 	// FailWatch makes the next Watch calls fail.
 	FailWatch func(owner client.Object, gk schema.GroupKind) error
 }
 
-func (s *Store) NewCache() *Cache {
-	return &Cache{s: s, watches: map[schema.GroupKind]map[string]bool{}}
+// OwnerRef mirrors dynamiccache.OwnerReference (built by Cache.ownerRef).
+type OwnerRef struct {
+	schema.GroupKind
+	UID       string
+	Name      string
+	Namespace string
 }
 
-func ownerID(o client.Object) string {
-	return string(o.GetUID()) + "/" + o.GetNamespace() + "/" + o.GetName()
+func (s *Store) NewCache() *Cache {
+	return &Cache{s: s, watches: map[schema.GroupVersionKind]map[OwnerRef]bool{}}
 }
+
+func (c *Cache) ownerRef(o client.Object) (OwnerRef, error) {
+	gvk, err := apiutil.GVKForObject(o, c.s.scheme)
+	if err != nil {
+		return OwnerRef{}, err
+	}
+	return OwnerRef{GroupKind: gvk.GroupKind(), UID: string(o.GetUID()), Name: o.GetName(), Namespace: o.GetNamespace()}, nil
+}
+
+func (r OwnerRef) id() string { return r.UID + "/" + r.Namespace + "/" + r.Name }
 
 func (c *Cache) Watch(_ context.Context, owner client.Object, obj runtime.Object) error {
 	gvk, err := apiutil.GVKForObject(obj, c.s.scheme)
+	if err != nil {
+		return err
+	}
+	ref, err := c.ownerRef(owner)
 	if err != nil {
 		return err
 	}
@@ -54,38 +80,79 @@ func (c *Cache) Watch(_ context.Context, owner client.Object, obj runtime.Object
 			return err
 		}
 	}
-	if c.watches[gk] == nil {
-		c.watches[gk] = map[string]bool{}
+	if c.watches[gvk] == nil {
+		c.watches[gvk] = map[OwnerRef]bool{}
 	}
-	c.watches[gk][ownerID(owner)] = true
+	c.watches[gvk][ref] = true
 	c.WatchLog = append(c.WatchLog, owner.GetName()+" "+gk.Kind)
 	return nil
 }
 
 func (c *Cache) Free(_ context.Context, owner client.Object) error {
-	id := ownerID(owner)
-	for gk, os := range c.watches {
-		delete(os, id)
+	ref, err := c.ownerRef(owner)
+	if err != nil {
+		return err
+	}
+	for gvk, os := range c.watches {
+		if !os[ref] {
+			continue
+		}
+		delete(os, ref)
 		if len(os) == 0 {
-			delete(c.watches, gk)
+			delete(c.watches, gvk)
 		}
 	}
 	return nil
 }
 
 // Restart forgets every watch (operator restart: the dynamic cache is in-memory only).
-func (c *Cache) Restart() { c.watches = map[schema.GroupKind]map[string]bool{} }
+func (c *Cache) Restart() { c.watches = map[schema.GroupVersionKind]map[OwnerRef]bool{} }
 
-// Watched lists "kind:owner,owner" entries, sorted.
+// Watched lists "kind:owner,owner" entries (owner = uid/namespace/name), sorted; the versions of a
+// kind are merged.
 func (c *Cache) Watched() []string {
+	byKind := map[string]map[string]bool{}
+	for gvk, os := range c.watches {
+		if byKind[gvk.Kind] == nil {
+			byKind[gvk.Kind] = map[string]bool{}
+		}
+		for r := range os {
+			byKind[gvk.Kind][r.id()] = true
+		}
+	}
 	var out []string
-	for gk, os := range c.watches {
+	for kind, os := range byKind {
 		var ids []string
 		for id := range os {
 			ids = append(ids, id)
 		}
 		sort.Strings(ids)
-		out = append(out, gk.Kind+":"+strings.Join(ids, ","))
+		out = append(out, kind+":"+strings.Join(ids, ","))
+	}
+	sort.Strings(out)
+	return out
+}
+
+// Registrations lists what the process has registered, as "Kind[/version]:OwnerKind/name,..."
+// entries (version printed unless v1; owners without uid, de-duplicated), everything sorted.
+func (c *Cache) Registrations() []string {
+	var out []string
+	for gvk, os := range c.watches {
+		seen := map[string]bool{}
+		var ids []string
+		for r := range os {
+			id := r.Kind + "/" + r.Name
+			if !seen[id] {
+				seen[id] = true
+				ids = append(ids, id)
+			}
+		}
+		sort.Strings(ids)
+		k := gvk.Kind
+		if gvk.Version != "v1" {
+			k += "/" + gvk.Version
+		}
+		out = append(out, k+":"+strings.Join(ids, ","))
 	}
 	sort.Strings(out)
 	return out
@@ -100,7 +167,7 @@ func (c *Cache) Get(ctx context.Context, key client.ObjectKey, obj client.Object
 	if err != nil {
 		return err
 	}
-	if _, ok := c.watches[gvk.GroupKind()]; !ok {
+	if _, ok := c.watches[gvk]; !ok {
 		return &CacheNotStarted{}
 	}
 	tmp := &unstructured.Unstructured{}
@@ -120,7 +187,7 @@ func (c *Cache) List(ctx context.Context, list client.ObjectList, opts ...client
 		return err
 	}
 	gvk.Kind = strings.TrimSuffix(gvk.Kind, "List")
-	if _, ok := c.watches[gvk.GroupKind()]; !ok {
+	if _, ok := c.watches[gvk]; !ok {
 		return &CacheNotStarted{}
 	}
 	opts = append(opts, client.MatchingLabels{CacheLabel: "True"})
